@@ -57,6 +57,8 @@ class Contract:
         # the result IS this specification expression (call sites get the term itself, the body is checked
         # against `result == <expr>`)
         self.result_is = kw.pop("result_is", None)
+        # names of @opaque specification functions whose definition this proof may use
+        self.reveal = list(kw.pop("reveal", []))
         self._kw = None
         # extra runs with some parameter types replaced, e.g. [{"second": "obj:BloomFilterOnDisk"}, {"second": "foreign"}]
         self.variants = list(kw.pop("variants", []))               # lemma text: local name -> contract key
